@@ -29,6 +29,7 @@ P_C11_BlockedWhileReceiving == [][R(A_C11_BlockedWhileReceiving)]_<<vars, l>>
 P_C11_AllowanceExact        == [][R(A_C11_AllowanceExact)]_<<vars, l>>
 P_C11_BothPaid              == [][R(A_C11_BothPaid)]_<<vars, l>>
 P_C11_OnlyStakeOpsMoveStake == [][R(A_C11_OnlyStakeOpsMoveStake)]_<<vars, l>>
+P_C11_EntitlementConserved  == [][R(A_C11_EntitlementConserved)]_<<vars, l>>
 
 \* all lines consumed
 Consumed == TLCGet("stats").diameter - 1 = Len(Trace)
